@@ -87,7 +87,8 @@ type hist struct {
 	nTree int
 
 	// long-lived open trees of all accounts (open.go)
-	open *openTrees
+	open   *openTrees
+	noOpen bool // interleaving worlds (ilv.go) build their own trees per sub-case
 }
 
 func newHist(w *vlib.Writer, seed, idx uint64, noProbe bool, tier string) *hist {
@@ -199,7 +200,9 @@ func (h *hist) setup() {
 	if err != nil {
 		panic(err)
 	}
-	h.openSetup()
+	if !h.noOpen {
+		h.openSetup()
+	}
 }
 
 // ---------------------------------------------------------------- state helpers
